@@ -91,6 +91,31 @@ func load(repoDir string, patterns []string) (*Loader, error) {
 	L.immGlobals = map[string]bool{}
 	L.assignRHS = map[*ssa.Function]map[ast.Expr]string{}
 	L.allFuncs = ssautil.AllFunctions(prog)
+	// AllFunctions reaches a method of an unexported type only when a value of the type is converted to an interface
+	// somewhere in the loaded packages: add the declared methods of every named type of the module explicitly
+	for _, p := range prog.AllPackages() {
+		if p.Pkg == nil || !strings.HasPrefix(p.Pkg.Path(), modulePath) {
+			continue
+		}
+		for _, mem := range p.Members {
+			tn, ok := mem.(*ssa.Type)
+			if !ok {
+				continue
+			}
+			nt, ok := tn.Type().(*types.Named)
+			if !ok {
+				continue
+			}
+			for i := 0; i < nt.NumMethods(); i++ {
+				if fn := prog.FuncValue(nt.Method(i)); fn != nil && fn.Blocks != nil && !L.allFuncs[fn] {
+					L.allFuncs[fn] = true
+					for _, an := range fn.AnonFuncs {
+						L.allFuncs[an] = true
+					}
+				}
+			}
+		}
+	}
 	for fn := range L.allFuncs {
 		if fn.Pkg == nil && fn.Parent() == nil {
 			continue
